@@ -51,6 +51,8 @@ func init() {
 			}
 			ruleDashDash(c, r, "")
 			ruleValidDictCap(c, r, "")
+			// files written by gxz announce a dictionary size that covers the encoder's window
+			ruleDictCapEncode(c, r, "lib:")
 			ruleDeferResult(c, r, "")
 			ruleReaderWindow(c, r, "")
 			ruleGxzDataSafety(c, r, "")
